@@ -507,7 +507,7 @@ class _Exp:
         out = []
         for f, i in zip(fs, ids):
             t = self.type_(f["type"])
-            d = self.val(f["default"]) if f.get("default") is not None else None
+            d = self.val(f["default"]) if f.get("default") is not None else {"t": "none", "v": "", "int": "", "l": [], "m": []}
             out.append({"id": i, "name": f["name"], "req": "optional" if throws else f.get("req", "default"),
                         "type": t, "def": d, "ann": self.ann(f.get("ann"))})
         assert len(ids) == len(fs)
@@ -566,8 +566,6 @@ def norm_projection(p):
     """observed projection (harness JSON) in the comparison form of expected_projection: doubles as floats,
     auxiliary 'int' of doubles dropped"""
     def val(v):
-        if v is None:
-            return None
         out = {"t": v["t"], "v": v["v"], "int": "", "l": [val(e) for e in v["l"]],
                "m": [[val(k), val(e)] for k, e in v["m"]]}
         if v["t"] == "d":
